@@ -296,8 +296,11 @@ def emitTop (env : Env) : List Node → Option (List Str)
       | some a, some b => some (a ++ b)
       | _, _ => none
 
-/-- `emit(doc)`; `none` = the call raises (`ValueError` for a directly nested Absent). -/
-def emit (env : Env) (d : Document) : Option Str := do
+/-- `if not output.endswith("\n"): output += "\n"` -/
+def finishText (out : Str) : Str := if out.getLast? == some '\n' then out else out ++ ['\n']
+
+/-- the joined lines of `emit(doc)` before the final-newline step; `none` = the call raises. -/
+def emitBody (env : Env) (d : Document) : Option Str := do
   let fm : List Str := match d.rawFrontmatter with
     | some f => if (env.strip f).isEmpty then [] else ["---".toList, f, "---".toList, []]
     | none => []
@@ -310,8 +313,10 @@ def emit (env : Env) (d : Document) : Option Str := do
   let sep : List Str := if d.hasSeparator then ["---".toList] else []
   let body ← emitTop env d.sections
   let trailing := leadingLines env d.trailingComments 0
-  let out := joinWith ['\n'] (fm ++ gv ++ ["===".toList ++ d.name ++ "===".toList] ++ metaPart ++ sep ++ body ++ trailing ++ ["===END===".toList])
-  pure (if out.getLast? == some '\n' then out else out ++ ['\n'])
+  pure (joinWith ['\n'] (fm ++ gv ++ ["===".toList ++ d.name ++ "===".toList] ++ metaPart ++ sep ++ body ++ trailing ++ ["===END===".toList]))
+
+/-- `emit(doc)`; `none` = the call raises (`ValueError` for a directly nested Absent). -/
+def emit (env : Env) (d : Document) : Option Str := (emitBody env d).map finishText
 
 end Emitter
 end Octave
